@@ -469,8 +469,13 @@ class ADC(ArithmeticInstruction):
     def lift_operation2(
         self, il: LowLevelILFunction, il_arg1: ExpressionIndex, il_arg2: ExpressionIndex
     ) -> ExpressionIndex:
+        # The inner sum is one byte wider so that operand + carry-in cannot wrap
+        # (e.g. 0xFF + 1) and lose the carry out.
         return il.add(
-            self.width(), il_arg1, il.add(self.width(), il_arg2, il.flag(CFlag)), CZFlag
+            self.width(),
+            il_arg1,
+            il.add(self.width() + 1, il_arg2, il.flag(CFlag)),
+            CZFlag,
         )
 
 
@@ -490,8 +495,13 @@ class SBC(ArithmeticInstruction):
     def lift_operation2(
         self, il: LowLevelILFunction, il_arg1: ExpressionIndex, il_arg2: ExpressionIndex
     ) -> ExpressionIndex:
+        # The inner sum is one byte wider so that operand + borrow-in cannot wrap
+        # (e.g. 0xFF + 1) and lose the borrow out.
         return il.sub(
-            self.width(), il_arg1, il.add(self.width(), il_arg2, il.flag(CFlag)), CZFlag
+            self.width(),
+            il_arg1,
+            il.add(self.width() + 1, il_arg2, il.flag(CFlag)),
+            CZFlag,
         )
 
 
@@ -802,14 +812,16 @@ def lift_multi_byte(
             initial_c_flag_expr = il.flag(CFlag)
 
             if subtract:  # SBCL: m = m - n - C_in. Implemented as m - (n + C_in)
-                # The inner add (n + C_in) must NOT alter flags.
-                term_to_subtract = il.add(w, b, initial_c_flag_expr)
+                # The inner add (n + C_in) must NOT alter flags and is one byte
+                # wider so that 0xFF + 1 does not wrap and lose the borrow.
+                term_to_subtract = il.add(w + 1, b, initial_c_flag_expr)
                 main_op_llil = il.sub(
                     w, a, term_to_subtract, CZFlag
                 )  # This SUB sets C and Z flags
             else:  # ADCL: m = m + n + C_in. Implemented as m + (n + C_in)
-                # The inner add (n + C_in) must NOT alter flags.
-                term_to_add = il.add(w, b, initial_c_flag_expr)
+                # The inner add (n + C_in) must NOT alter flags and is one byte
+                # wider so that 0xFF + 1 does not wrap and lose the carry.
+                term_to_add = il.add(w + 1, b, initial_c_flag_expr)
                 main_op_llil = il.add(
                     w, a, term_to_add, CZFlag
                 )  # This ADD sets C and Z flags
